@@ -116,23 +116,32 @@ async def run_bt_async(D: dict, suspend: str = "sleep0", seed: int = 0, dup_subs
                 apply(effs)
         return job
 
+    class Strategy:
+        """Handlers are bound methods, as in applications: every attribute access yields a new, equal method object."""
+        def __init__(self, fn):
+            self._fn = fn
+
+        async def on_event(self, event):
+            await self._fn(event)
     handlers: Dict[Any, Any] = {}
     for s in range(1, D["ns"] + 1):
         hs = D["hs"][s - 1]
         assert hs, "a source is only known to the dispatcher through a subscription"
         for hid in hs:
-            h = handlers.setdefault(("h", hid), make_handler(hid, 2))
-            d.subscribe(sources[s - 1], h)
+            h = handlers.setdefault(("h", hid), Strategy(make_handler(hid, 2)))
+            d.subscribe(sources[s - 1], h.on_event)
             if dup_subscriptions and rng.random() < 0.3:
-                d.subscribe(sources[s - 1], h)          # duplicate subscriptions are ignored
+                d.subscribe(sources[s - 1], h.on_event)          # duplicate subscriptions are ignored
     for hid in D["pre"]:
-        h = handlers.setdefault(("pre", hid), make_handler(hid, 1))
-        d.subscribe_all(h, front_run=True)
+        h = handlers.setdefault(("pre", hid), Strategy(make_handler(hid, 1)))
+        d.subscribe_all(h.on_event, front_run=True)
         if dup_subscriptions and rng.random() < 0.3:
-            d.subscribe_all(h, front_run=True)
+            d.subscribe_all(h.on_event, front_run=True)
     for hid in D["post"]:
-        h = handlers.setdefault(("post", hid), make_handler(hid, 3))
-        d.subscribe_all(h)
+        h = handlers.setdefault(("post", hid), Strategy(make_handler(hid, 3)))
+        d.subscribe_all(h.on_event)
+        if dup_subscriptions and rng.random() < 0.3:
+            d.subscribe_all(h.on_event)
     for k, j in enumerate(D["jobs"], start=1):
         d.schedule(T(j["when"]), make_job(j["prog"], j["when"], k))
 
